@@ -12,6 +12,7 @@ wrapped as class attributes at run time (iteration and improvement counters); th
 hillclimb_allocation.allocate_live_ranges is captured by wrapping the module attribute through which
 tensor_allocation reaches it.
 """
+import json
 import random
 
 from . import common
@@ -245,36 +246,129 @@ class _Arch:
         return self.limit
 
 
+class _NpuOpInfo:
+    def __init__(self):
+        self.cascade = 0
+        self.buffered_weight_tensors = []
+        self.ofm_depth_slices = [0, 1]
+        self.time_index = 0
+
+
+class _Schedule:
+    def __init__(self):
+        self.cost_map = {}
+        self.cascades = {}
+
+
+class _CallOp:
+    """The operator of a CPU cascaded pass that calls an NPU subgraph (Op.CustomNpuOp with attrs['subgraph'])."""
+    run_on_npu = True
+
+    def __init__(self, sg):
+        from ethosu.vela.operation import Op
+        self.type = Op.CustomNpuOp
+        self.attrs = {"subgraph": sg}
+
+
+class _NpuOp:
+    run_on_npu = True
+    memory_function = None
+
+
+def uses_to_graph(uses):
+    """The single-subgraph form (first pass, last pass, size per tensor) as a graph description."""
+    n = 1 + max(u[1] for u in uses)
+    passes = [{"in": [], "mid": [], "out": [], "npu": None} for _ in range(n)]
+    for i, (first, last, size) in enumerate(uses):
+        passes[first]["out" if i % 3 else "mid"].append(i)
+        if last != first:
+            passes[last]["in"].append(i)
+    return {"sizes": [u[2] for u in uses], "passes": passes, "outputs": [], "cpu": [i for i in range(len(uses)) if i % 2 == 0]}
+
+
+def requested_alignment(graph, alignment):
+    """Per tensor, the MAXIMUM alignment any part of the compiler requests for its live range: cpu_tensor_alignment
+    wherever the tensor is visible in the CPU subgraph (inputs / intermediates / outputs of a cascaded pass, graph
+    outputs), Tensor.AllocationQuantum (16) for the look-ups of the NPU subgraphs.  Computed from the description
+    of the synthetic graph, never read back from the code under test."""
+    req = {}
+    for ps in graph["passes"]:
+        for t in ps["in"] + ps["mid"] + ps["out"]:
+            req[t] = max(req.get(t, 0), alignment)
+        for op in ps["npu"] or []:
+            for t in op["in"] + op["out"]:
+                req[t] = max(req.get(t, 0), 16)
+    for t in graph["outputs"]:
+        req[t] = max(req.get(t, 0), alignment)
+    return req
+
+
 def call_e2e(allocator, uses, alignment, maxit=None, limit=0, rec_id=0):
-    """tensor_allocation.allocate on a synthetic subgraph: `uses` = (first cascaded pass, last cascaded pass, size)
-    per tensor.  The live ranges are whatever live_range.extract_live_ranges_from_cascaded_passes makes of it; the
-    record describes those (start, end, size, alignment read back from the LiveRange objects)."""
+    rec = call_e2e_graph(allocator, uses_to_graph(uses), alignment, maxit, limit, rec_id)
+    rec["uses"] = [list(u) for u in uses]
+    del rec["graph"]
+    return rec
+
+
+def call_e2e_graph(allocator, graph, alignment, maxit=None, limit=0, rec_id=0):
+    """tensor_allocation.allocate on a synthetic network: a CPU subgraph (cascaded passes) some of whose passes call
+    an NPU subgraph (scheduled operators).  graph = {sizes, passes: [{in, mid, out, npu: None | [{in, out}, ..]}],
+    outputs, cpu: tensors with a consumer that does not run on the NPU}.  Inputs of an NPU subgraph are requested
+    first by the CPU side (cpu_tensor_alignment) and then looked up by the NPU side (16); its outputs the other way
+    round.  The live ranges (times, sizes) are whatever live_range.py makes of it; the alignment each range has to
+    honour is requested_alignment()."""
     st = setup()
     from ethosu.vela import tensor_allocation
     from ethosu.vela.data_type import DataType
     from ethosu.vela.nn_graph import TensorAllocator
+    from ethosu.vela.operation import Op
     from ethosu.vela.tensor import MemArea, MemType, Tensor, TensorPurpose
     _reset()
-    ncps = 1 + max(u[1] for u in uses)
-    sg = _Sg()
-    sg.cascaded_passes = [_Cps() for _ in range(ncps)]
     tensors = []
-    for i, (first, last, size) in enumerate(uses):
+    for i, size in enumerate(graph["sizes"]):
         t = Tensor([size], DataType.int8, "e%04d" % i)
         t.purpose = TensorPurpose.FeatureMap
         t.mem_area = MemArea.Sram
         t.mem_type = MemType.Scratch
-        if i % 2 == 0:
+        if i in graph["cpu"]:
             t.consumer_list = [_cpu_op()]
-        (sg.cascaded_passes[first].outputs if i % 3 else sg.cascaded_passes[first].intermediates).append(t)
-        if last != first:
-            sg.cascaded_passes[last].inputs.append(t)
         tensors.append(t)
+
+    def build():
+        sg = _Sg()
+        for ps in graph["passes"]:
+            c = _Cps()
+            c.inputs = [tensors[i] for i in ps["in"]]
+            c.intermediates = [tensors[i] for i in ps["mid"]]
+            c.outputs = [tensors[i] for i in ps["out"]]
+            if ps["npu"] is not None:
+                nsg = _Sg()
+                nsg.sched_ops = []
+                nsg.schedule = _Schedule()
+                for op in ps["npu"]:
+                    so = _NpuOp()
+                    so.op_type = Op.Conv2DBias
+                    so.parent_op = _NpuOp()
+                    so.parent_ps = _Cps()
+                    so.parent_ps.inputs = [tensors[i] for i in op["in"]]
+                    so.parent_ps.outputs = [tensors[i] for i in op["out"]]
+                    so.parent_ps.ifm_tensor = so.parent_ps.inputs[0] if so.parent_ps.inputs else None
+                    nsg.sched_ops.append(so)
+                    nsg.schedule.cost_map[so] = _NpuOpInfo()
+                nsg.output_tensors = [tensors[i] for i in ps["out"]]
+                call = _CallOp(nsg)
+                c.passes = [_Ps()]
+                c.passes[0].ops = [call]
+            sg.cascaded_passes.append(c)
+        sg.output_tensors = [tensors[i] for i in graph["outputs"]]
+        return sg
+
+    sg = build()
     kind = {"greedy": TensorAllocator.Greedy, "linear": TensorAllocator.LinearAlloc,
             "hillclimb": TensorAllocator.HillClimb}[allocator]
     rec = {"t": rec_id, "alg": "e2e-" + allocator, "r": [], "addr": [], "total": -1, "iters": 0, "impr": 0,
            "maxit": (st["default_maxit"] if maxit is None else maxit) if allocator == "hillclimb" else 0,
-           "minimp": st["min_improve"], "raised": "", "drift": False, "uses": [list(u) for u in uses],
+           "minimp": st["min_improve"], "raised": "", "drift": False, "graph": graph,
            "alignment": alignment, "limit": limit}
     lrs = None
     try:
@@ -282,16 +376,21 @@ def call_e2e(allocator, uses, alignment, maxit=None, limit=0, rec_id=0):
                                                 tensor_allocator=kind, cpu_tensor_alignment=alignment,
                                                 hillclimb_max_iterations=maxit)
         rec["total"] = int(total)
-    except Exception as ex:
+    except Exception as ex:      # includes AllocationError from verify_alignment / verify_allocation: an observation
         rec["raised"] = _exc(ex)
-    # describe the ranges the allocator worked on (rebuilt independently of `lrs` if the call raised)
+    # describe the ranges the allocator worked on (extracted once more from a fresh copy of the graph if the call raised)
     if lrs is None:
         from ethosu.vela import live_range
-        for c in sg.cascaded_passes:
-            c.time = 0
-        lrs = live_range.extract_live_ranges_from_cascaded_passes(sg, MemArea.Sram, set((MemType.Scratch,)),
+        lrs = live_range.extract_live_ranges_from_cascaded_passes(build(), MemArea.Sram, set((MemType.Scratch,)),
                                                                    cpu_tensor_alignment=alignment)
-    rec["r"] = [[int(lr.start_time), int(lr.end_time), int(lr.size), int(lr.get_alignment()), 0] for lr in lrs.lrs]
+    req = requested_alignment(graph, alignment)
+    index = {id(t): i for i, t in enumerate(tensors)}
+    rec["r"] = []
+    for lr in lrs.lrs:
+        al = max(req[index[id(t)]] for t in lr.tensors)
+        if allocator == "linear":
+            al = max(al, alignment)          # LinearAlloc: the requested alignment is the granularity argument
+        rec["r"].append([int(lr.start_time), int(lr.end_time), int(lr.size), int(al), 0])
     try:
         rec["addr"] = _addresses([lr.tensors[0] for lr in lrs.lrs])
     except Exception:
@@ -301,6 +400,47 @@ def call_e2e(allocator, uses, alignment, maxit=None, limit=0, rec_id=0):
     rec["iters"] = st["iters"]
     rec["impr"] = st["impr"]
     return rec
+
+
+def random_graph(rng: random.Random, npasses, small):
+    """A chain of CPU cascaded passes, about half of which call an NPU subgraph of 1-3 operators.  Tensors produced by
+    earlier passes (or graph inputs) feed later ones; sizes deliberately include values that are not multiples of the
+    larger alignments so that a range only lands on an aligned address if the allocator aligns it."""
+    sizes, passes, cpu = [], [], []
+
+    def new(is_cpu):
+        sizes.append(rng.choice((16, 16, 48, 80, rng.randrange(1, 400))) if small else
+                     rng.choice((rng.randrange(1, 300), 16 * rng.randrange(1, 64), rng.randrange(1, 1 << 16))))
+        if is_cpu:
+            cpu.append(len(sizes) - 1)
+        return len(sizes) - 1
+
+    avail = [new(rng.random() < 0.5) for _ in range(rng.randrange(1, 4))]          # graph inputs
+    for _ in range(npasses):
+        ins = rng.sample(avail, rng.randrange(1, min(3, len(avail)) + 1))
+        if rng.random() < 0.55:
+            outs = [new(rng.random() < 0.7) for _ in range(rng.randrange(1, 3))]
+            ops, cur = [], list(ins)
+            for k in range(rng.randrange(1, 4)):
+                last = k == 0 and rng.random() < 0.4
+                if last:
+                    ops.append({"in": cur, "out": outs})
+                    break
+                mid = [new(False) for _ in range(rng.randrange(1, 3))]               # NPU-internal
+                ops.append({"in": cur, "out": mid})
+                cur = mid + ([rng.choice(ins)] if rng.random() < 0.3 else [])
+            else:
+                ops.append({"in": cur, "out": outs})
+            passes.append({"in": ins, "mid": [], "out": outs, "npu": ops})
+        else:
+            outs = [new(True) for _ in range(rng.randrange(1, 3))]
+            mid = [new(True)] if rng.random() < 0.3 else []
+            passes.append({"in": ins, "mid": mid, "out": outs, "npu": None})
+        avail += outs
+        if len(avail) > 6:
+            avail = avail[-6:]
+    outputs = rng.sample(avail, rng.randrange(1, min(2, len(avail)) + 1))
+    return {"sizes": sizes, "passes": passes, "outputs": outputs, "cpu": cpu}
 
 
 # ------------------------------------------------------------------ jobs (run in worker processes)
@@ -315,6 +455,9 @@ def run_job(job):
     if kind == "e2e":
         _, alg, uses, alignment, maxit, limit, rid = job
         return call_e2e(alg, uses, alignment, maxit, limit, rid)
+    if kind == "e2eg":
+        _, alg, graph, alignment, maxit, limit, rid = job
+        return call_e2e_graph(alg, json.loads(graph), alignment, maxit, limit, rid)
     raise ValueError(kind)
 
 
